@@ -17,6 +17,9 @@ KNOWN_TEXT = {
     "createdisk-memory-on-failure": "createDisk changes diskData / activeDiskData / volume.files before volume.meta is committed and does not "
                                     "undo it when the commit fails: after a failed Snapshot Chain() fails and writes fail ('file already closed')",
     "resize-size-on-failure": "Resize truncates the images and sets r.info.Size before volume.meta is written: a failed Resize leaves the new size",
+    "remove-data-bearing-snapshot-read": "RemoveDiffDisk (raw removedisk, no merge) of a snapshot that holds the newest copy of a block: the running "
+                                         "process reads that block as zeros (RemoveIndex clears the location entry), after close + open the "
+                                         "block shows the older copy a lower snapshot holds: reopening does not reproduce the same data",
     "checkpoint-set-on-failure": "SetCheckpoint sets r.info.Checkpoint before volume.meta is written: a failed SetCheckpoint leaves the new value "
                                  "in memory (persisted by the next metadata update)",
 }
@@ -50,9 +53,23 @@ def shape_of(case, outs, failstep):
         if name not in chain[1:] and name in prev["dir"]:
             return "revert-target"
     cur = outs["obs"][failstep]
+    if o["op"] == "open" and cur["res"] == "ok" and not prev.get("open"):
+        # the reopen shows other data than the process that was closed: was a data-bearing snapshot removed (raw
+        # RemoveDiffDisk, no merge) in that session, changing what the running process read?
+        for k in range(failstep - 1, 0, -1):
+            q, ob, pb = ops[k], outs["obs"][k], outs["obs"][k - 1]
+            if q["op"] in ("open", "revert") and ob["res"] == "ok" and q is not o:
+                break
+            if q["op"] == "rm" and ob["res"] == "ok" and pb.get("chain") and ob.get("chain") and len(ob["chain"]) < len(pb["chain"]) \
+                    and pb.get("live") != ob.get("live"):
+                return "remove-data-bearing-snapshot-read"
     if o.get("blk") and cur["res"] == "err" and prev.get("open") and cur.get("open"):
         # an operation made to fail by an obstacle at volume.meta.tmp; the shapes are stated on the Info() before / after
-        if o["op"] == "snap" and info_but(prev.get("info"), cur.get("info"), ()) and sorted(prev["dir"]) == sorted(cur["dir"]):
+        members = [n for c in (prev.get("chain") or []) for n in (c, c + ".meta")]
+        if o["op"] == "snap" and info_but(prev.get("info"), cur.get("info"), ()) and prev.get("chain") \
+                and all(n in cur["dir"] and cur["dir"][n].get("ino") == prev["dir"].get(n, {}).get("ino") for n in members):
+            # Info() is unchanged and every file of the chain is still there (only files off the chain may have gone:
+            # a stale head of an earlier failed operation is removed by createNewHead)
             return "createdisk-memory-on-failure"
         if o["op"] == "resize" and info_but(prev.get("info"), cur.get("info"), ("size",)) and prev.get("chain") == cur.get("chain"):
             return "resize-size-on-failure"
@@ -112,10 +129,14 @@ def main(ctx, replay=None):
         else:
             drift.append(b)
 
-    def minimise(b, case, pred):
-        small = metalib.shrink(ctx, binpath, case, pred)
+    def minimise(b, case, pred, pred3=None):
+        small = metalib.shrink(ctx, binpath, case, pred, pred3=pred3)
         bb, _, oo = metalib.run_cases(ctx, binpath, [small], tag="fin")
         return small, bb, oo
+
+    def unknown_failure(b, cand, couts):
+        """the oracle fails on the implementation's trace and the failing step does not have the shape of a known finding"""
+        return (not b["c12"]) and shape_of(cand, couts, b["failstep"]) not in known_keys
 
     seen = set()
     known.sort(key=lambda x: len(cases[x[0]["case"]]["ops"]))          # minimise the shortest representative of each shape
@@ -124,7 +145,7 @@ def main(ctx, replay=None):
         if sh in seen:
             continue
         seen.add(sh)
-        if b["case"] < nfixed or sh.endswith("-on-failure"):
+        if b["case"] < nfixed or sh.endswith("-on-failure") or sh == "remove-data-bearing-snapshot-read":
             # one of the hand-minimised histories of metalib.known_cases(): nothing to shrink
             vlib.known_finding(ctx, sh, KNOWN_TEXT[sh])
             continue
@@ -137,7 +158,8 @@ def main(ctx, replay=None):
             concrete.append(b)
 
     def report_concrete(b, case):
-        small, bb, oo = minimise(b, case, lambda x: not x["c12"])
+        # the minimised history must still fail in a way that is not a known finding
+        small, bb, oo = minimise(b, case, lambda x: not x["c12"], pred3=unknown_failure)
         fs = bb[0]["failstep"] if bb else None
         vlib.violation(ctx, dict(property="C12", kind="C12 oracle fails on the implementation's trace", ops=small["ops"],
                                  maxchain=small.get("maxchain", 0), failing_step=fs,
